@@ -9,6 +9,7 @@ package main
 
 import (
 	"context"
+	"errors"
 	"fmt"
 	"math/rand/v2"
 	"strings"
@@ -375,6 +376,94 @@ func concurrentCallers(run *evid.Run, idx int) {
 	}
 }
 
+// listingFailure: the underlying registry's catalog fails - at once, after some names, or together with
+// a name. The view of a registry that cannot be listed is a view that cannot be listed: the failure
+// reaches the caller (as the error that ends the sequence), names delivered before it are stripped names
+// of repositories under the prefix, in order, and nothing is delivered after it.
+func listingFailure(run *evid.Run, idx int) {
+	prefix := []string{"pre", "pre/fix", "a/b/c"}[idx%3]
+	under := []string{prefix + "/a", prefix + "/b/c", prefix + "/d"}
+	all := append([]string{"aa/outside"}, under...)
+	all = append(all, "zz/outside")
+	failAt := idx / 3 % (len(all) + 1) // position of the failure in the underlying listing
+	withItem := idx%2 == 1             // the error comes with an item (the Seq contract allows it)
+	boom := fmt.Errorf("catalog backend unavailable (%d)", idx)
+	backend := &ociregistry.Funcs{
+		Repositories_: func(ctx context.Context, startAfter string) ociregistry.Seq[string] {
+			return func(yield func(string, error) bool) {
+				for i, n := range all {
+					if i == failAt {
+						if withItem {
+							yield(n, boom)
+						} else {
+							yield("", boom)
+						}
+						return
+					}
+					if !yield(n, nil) {
+						return
+					}
+				}
+				if failAt == len(all) {
+					yield("", boom)
+				}
+			}
+		},
+	}
+	var view ociregistry.Interface = ocifilter.Sub(backend, prefix)
+	if parts := strings.Split(prefix, "/"); idx%4 >= 2 && len(parts) > 1 {
+		view = backend
+		for _, p := range parts {
+			view = ocifilter.Sub(view, p)
+		}
+	}
+	var names []string
+	var errs []error
+	after := 0
+	run.Eval(1)
+	if !run.Case("total/listing-failure", map[string]any{"prefix": prefix, "fail_at": failAt}, func() {
+		view.Repositories(context.Background(), "")(func(n string, err error) bool {
+			if len(errs) > 0 {
+				after++
+			}
+			if err != nil {
+				errs = append(errs, err)
+				return true // a patient consumer: the sequence has to end by itself
+			}
+			names = append(names, n)
+			return len(names) < 20
+		})
+	}) {
+		return
+	}
+	run.Count("listings_over_failing_catalog", 1)
+	run.Distinct(fmt.Sprintf("listing-failure/at=%d/with-item=%v", failAt, withItem))
+	wit := map[string]any{"prefix": prefix, "underlying_listing": all, "fails_at_position": failAt, "error_with_item": withItem, "delivered": names, "errors": fmt.Sprint(errs)}
+	if len(errs) == 0 {
+		run.Violation("listing-failure/error-lost", fmt.Sprintf("the underlying catalog failed at position %d; the view delivered %q and ended without an error", failAt, names), wit)
+		return
+	}
+	if !errors.Is(errs[0], boom) {
+		run.Violation("listing-failure/other-error", fmt.Sprintf("the view failed with %v, the underlying catalog with %v", errs[0], boom), wit)
+	}
+	if after > 0 {
+		run.Violation("listing-failure/yield-after-error", fmt.Sprintf("the view called its consumer %d more time(s) after delivering the error", after), wit)
+	}
+	// names delivered: stripped names of repositories under the prefix that precede the failure, in order
+	var want []string
+	for i, n := range all {
+		if i >= failAt {
+			break
+		}
+		if strings.HasPrefix(n, prefix+"/") {
+			want = append(want, strings.TrimPrefix(n, prefix+"/"))
+		}
+	}
+	if len(names) > len(want) || strings.Join(names, "\x00") != strings.Join(want[:len(names)], "\x00") {
+		run.Violation("listing-failure/names", fmt.Sprintf("before the failure the view delivered %q; the repositories under the prefix before position %d are %q", names, failAt, want), wit)
+	}
+}
+
 func main() {
 	run := evid.Start("C13", "exploration")
 	run.SetRule("cases: (a) every Interface method × caller names (valid, absent, and ill-formed: empty, '.', '..', '../x', 'a/../../x', '/x', 'x/', 'a//b', upper case, …) × prefixes of 1–3 elements (multi-element ones alternately as one Sub and as nested Subs), each under a PRNG-chosen auth scope; (b) histories through Sub next to a twin registry called with prefixed names; (c) repository listings from start points absent/element/between/outside. " +
@@ -470,6 +559,10 @@ func main() {
 		concurrentCallers(run, i)
 	}
 	run.FloorCounter("concurrent_scoped_calls", 30000)
+	for i := 0; i < 72; i++ {
+		listingFailure(run, i)
+	}
+	run.FloorCounter("listings_over_failing_catalog", 60)
 	run.FloorCounter("ill_formed_names", 100)
 	run.FloorCounter("listings", 50)
 	run.FloorCounter("listing_outside_skipped", 50)
